@@ -3,7 +3,7 @@
 cd "$(dirname "$0")/.." || exit 2
 OUT=seeded/RERUN.txt
 TMP=$(mktemp -d)
-ls -d seeded/*/ mutants/*/ | xargs -P 3 -I{} sh -c 'n=$(basename {}); python3 tools/seedtest.py {} --no-tests > '"$TMP"'/$n.json 2>&1'
+ls -d seeded/*/ mutants/*/ | xargs -P 4 -I{} sh -c 'n=$(basename {}); python3 tools/seedtest.py {} --no-tests > '"$TMP"'/$n.json 2>&1'
 python3 - "$TMP" > $OUT <<'PY'
 import json,glob,os,sys
 rows=[]
